@@ -161,3 +161,27 @@ Theorem C05_witnesses_repaired : tblock_ok 1 2 mut_witness = true /\ tblock_ok 1
 Proof. exact @ExecTry.witnesses_repaired. Qed.
 Print Assumptions C05_witnesses_repaired.
 
+
+(* ---- for loops on top of the compound contexts (Model/ExecLoop.v, Proofs/ExecLoop.v: the grammar of ExecTry plus TFor; from here on tstmt, exec_t, ... denote ExecLoop's). The walker reads a loop body once: soundness is REFUTED in general (the real library behaves alike; loops are outside C05's quantified grammar) and proved for loop bodies that are fixed points of the abstract interpretation ---- *)
+From Sigtools.Model Require Import ExecLoop.
+From Sigtools.Proofs Require Import ExecLoop.
+Theorem C05_loop_visitor_flags_t_absint : forall (va vk : N) (nm : tnames) (l : list tstmt), va <> vk -> fixed_ok va vk nm = true -> tblock_ok va vk l = true -> visitor_flags_t va vk nm l = Some (snd (absint_tb l (true, true))).
+Proof. exact @ExecLoop.visitor_flags_t_absint. Qed.
+Print Assumptions C05_loop_visitor_flags_t_absint.
+
+Theorem C05_loop_flags_sound_try : forall (va vk : N) (nm : tnames) (l : list tstmt) (fls : list flags), va <> vk -> fixed_ok va vk nm = true -> tblock_ok va vk l = true -> tblock_loop_free l = true -> visitor_flags_t va vk nm l = Some fls -> forall (r : outcome) (e : event), In r (run_t l) -> In e (o_ev r) -> (ev_site e < length fls)%nat /\ flag_sound (nth (ev_site e) fls dflags) e.
+Proof. exact @ExecLoop.flags_sound_try. Qed.
+Print Assumptions C05_loop_flags_sound_try.
+
+Theorem C05_loop_flags_sound_loop_partial : forall (va vk : N) (nm : tnames) (l : list tstmt) (fls : list flags), va <> vk -> fixed_ok va vk nm = true -> tblock_ok va vk l = true -> loop_stable l = true -> visitor_flags_t va vk nm l = Some fls -> forall (r : outcome) (e : event), In r (run_t l) -> In e (o_ev r) -> (ev_site e < length fls)%nat /\ flag_sound (nth (ev_site e) fls dflags) e.
+Proof. exact @ExecLoop.flags_sound_loop_partial. Qed.
+Print Assumptions C05_loop_flags_sound_loop_partial.
+
+Theorem C05_loop_flags_sound_loop_quiet : forall (va vk : N) (nm : tnames) (l : list tstmt) (fls : list flags), va <> vk -> fixed_ok va vk nm = true -> tblock_ok va vk l = true -> tblock_loop_quiet l = true -> visitor_flags_t va vk nm l = Some fls -> forall (r : outcome) (e : event), In r (run_t l) -> In e (o_ev r) -> (ev_site e < length fls)%nat /\ flag_sound (nth (ev_site e) fls dflags) e.
+Proof. exact @ExecLoop.flags_sound_loop_quiet. Qed.
+Print Assumptions C05_loop_flags_sound_loop_quiet.
+
+Theorem C05_loop_flags_sound_loop_refuted : exists (fls : list flags) (r : outcome) (e : event), fixed_ok 1 2 default_tnames = true /\ tblock_ok 1 2 loop_witness = true /\ forallb wf_t loop_witness = true /\ loop_stable loop_witness = false /\ visitor_flags_t 1 2 default_tnames loop_witness = Some fls /\ In r (run_t loop_witness) /\ In e (o_ev r) /\ ~ flag_sound (nth (ev_site e) fls dflags) e.
+Proof. exact @ExecLoop.flags_sound_loop_refuted. Qed.
+Print Assumptions C05_loop_flags_sound_loop_refuted.
+
